@@ -4,7 +4,23 @@ import lapgen as G
 import recgen as R
 import sx
 from common import Case
-from C05 import canon
+from C05 import canon as _canon5
+
+
+def canon(case, out):
+    """sbcov cases print the sparse map itself: entries sorted by flat index, zero counts dropped (whether a bin whose
+    count returned to zero keeps an entry is not specified)"""
+    o = _canon5(case, out)
+    if case.startswith('(sbcov') and isinstance(o, list):
+        res = []
+        for x in o:
+            if isinstance(x, list) and x and x[0] == 'smap' and len(x) == 4 and isinstance(x[3], list):
+                ent = sorted(([int(e[0]), int(e[1])] for e in x[3] if int(e[1]) != 0))
+                res.append(['smap', x[1], x[2], [[str(i), str(v)] for i, v in ent]])
+            else:
+                res.append(x)
+        return res
+    return o
 
 ID = 'C06'
 RULE = ('bcov cases: lists of NON-EMPTY regions (empty list, duplicates, several chromosomes) x bin sizes (1, divisors and '
@@ -77,6 +93,64 @@ def gen(rng, tier):
             b = rng.choice([1, 1, 2, 3, L, max(1, L - 1), L + 1, max(1, L // 2), 7, W64]) if len(regs) < 10 else rng.choice([7, 10, 25, max(1, L // 2), L + 1])
         ops, nt = one(rng, regs, b, mode, rng.randint(2, 12))
         yield Case(sx.dump(['bcov', b, ['regs'] + [[R.h(c), s, e] for c, s, e in regs], ['ops'] + ops]), nt, mode)
+    # region lists far longer than any bookkeeping threshold (65..300 regions), with sweeps that hit most regions
+    # between two resets, then a reset, a few more tags, another reset, and the counts read after every phase
+    for k in range(10 if tier == 'quick' else 80):
+        nreg = rng.choice([65, 66, 70, 100, 129, 257, 300])
+        chs = R.chrom_set(rng, 2)
+        regs = []
+        x = 0
+        for i in range(nreg):
+            x += rng.randint(0, 6); L = rng.randint(1, 12)
+            regs.append((chs[i % len(chs)] if k % 2 else chs[0], x, x + L)); x += L
+        if k % 3 == 0:
+            rng.shuffle(regs)
+        b = rng.choice([1, 3, 5, 12, 13])
+        ops = [['len']]
+        def sweep(frac):
+            out = []
+            for (c, s_, e_) in regs:
+                if rng.random() < frac:
+                    out.append(['ins', R.h(c), s_ + rng.randint(0, max(0, e_ - s_ - 1)), e_ + rng.randint(0, 2), rng.choice([1, 1, 2, 5])])
+            return out
+        ops += sweep(rng.choice([0.3, 0.7, 0.95, 1.0])) + [['get'], ['reset'], ['get']]
+        ops += sweep(0.03) + [['get'], ['reset'], ['get']] + sweep(0.05) + [['get']]
+        ops += sweep(1.0) + [['reset']] + sweep(0.02) + [['get'], ['reset'], ['get'], ['regions']]
+        for i in (0, 1, 63, 64, 65, nreg - 1, nreg, nreg * 13):
+            ops += [['getregion', i], ['getchrom', i]]
+        yield Case(sx.dump(['bcov', b, ['regs'] + [[R.h(c), s_, e_] for c, s_, e_ in regs], ['ops'] + ops]), True, 'many-regions')
+    # sparse counter alone: region lists whose cumulative number of bins crosses 2^8, 2^16, 2^32 (and 2^63) BEFORE the
+    # last regions, tags in the regions behind the big one, lookups on both sides of every power of two and of len()
+    for k in range(12 if tier == 'quick' else 100):
+        big = rng.choice([2**8, 2**16, 2**32, 2**32, 2**33 + 5, 2**48, 2**63])
+        b = rng.choice([1, 1, 2, 3, 7]) if big < 2**60 else 1
+        chs = R.chrom_set(rng, 3)
+        extra = rng.randint(0, 300)
+        regs = [(chs[0], 10, 10 + rng.randint(1, 40)), (chs[1 % len(chs)], 0, big * b + extra)]
+        for j in range(rng.randint(1, 4)):
+            s0 = rng.randint(0, 5000); regs.append((chs[j % len(chs)], s0, s0 + rng.randint(1, 3000)))
+        if k % 4 == 3:
+            regs = regs[1:] + regs[:1]
+        ops = []
+        def tag_in(r):
+            c, s_, e_ = r
+            a0 = rng.randint(s_, max(s_, min(e_ - 1, s_ + 5000))) if rng.random() < 0.7 else max(s_, e_ - rng.randint(1, 20))
+            return ['ins', R.h(c), a0, a0 + rng.randint(1, 3 * b + 2), rng.choice([1, 2, 5, -1])]
+        nbins_ = lambda r: -(-(r[2] - r[1]) // b)
+        total = sum(nbins_(r) for r in regs)
+        for _j in range(rng.randint(3, 9)):
+            ops.append(tag_in(rng.choice(regs)))
+            if rng.random() < 0.4:
+                ops.append(['getmap'])
+        ops.append(['getmap'])
+        acc = 0
+        probes = set([0, 1, total - 1, total, total + 1, big - 1, big, big + 1, 2**32 - 1, 2**32, 2**32 + 1, 2**16, 2**8])
+        for r in regs:
+            probes.update([acc, acc + 1, max(0, acc - 1), acc + nbins_(r) - 1]); acc += nbins_(r)
+        for i in sorted(p for p in probes if 0 <= p < 2**64):
+            ops += [['getregion', i], ['getchrom', i]]
+        ops += [['reset'], ['getmap'], tag_in(regs[-1]), ['getmap']]
+        yield Case(sx.dump(['sbcov', b, ['regs'] + [[R.h(c), s_, e_] for c, s_, e_ in regs], ['ops'] + ops]), True, 'huge-bin-count')
     if tier == 'thorough':
         c = R.h(b'chr1')
         for s in range(0, 4):
